@@ -206,12 +206,26 @@ fn plain_quantity(prog: &[QTok]) -> Vec<String> {
                     })
                 }
             }
-            QTok::Lt | QTok::Eq => {
+            QTok::Lt | QTok::Eq | QTok::Le | QTok::Gt | QTok::Ge | QTok::Ne => {
                 if st.len() >= 2 {
                     let (b, a) = (st.pop().unwrap(), st.pop().unwrap());
                     let r = match (a, b) {
-                        (P::Q(x), P::Q(y)) => Some(if *tok == QTok::Lt { x < y } else { x == y }),
-                        (P::T(x), P::T(y)) | (P::D(x), P::D(y)) => Some(if *tok == QTok::Lt { x < y } else { x == y }),
+                        (P::Q(x), P::Q(y)) => Some(match *tok {
+                            QTok::Lt => x < y,
+                            QTok::Le => x <= y,
+                            QTok::Gt => x > y,
+                            QTok::Ge => x >= y,
+                            QTok::Ne => x != y,
+                            _ => x == y,
+                        }),
+                        (P::T(x), P::T(y)) | (P::D(x), P::D(y)) => Some(match *tok {
+                            QTok::Lt => x < y,
+                            QTok::Le => x <= y,
+                            QTok::Gt => x > y,
+                            QTok::Ge => x >= y,
+                            QTok::Ne => x != y,
+                            _ => x == y,
+                        }),
                         _ => None,
                     };
                     out.push(match r {
@@ -385,7 +399,7 @@ pub fn check(s: &Scenario) -> CheckResult {
                 if let Step::Quantity(prog) = step {
                     let plain = plain_quantity(prog);
                     ensure!(*t == plain, "C19/ill/not-plain-f32", "[{}] result {:?} differs from plain f32/i64 arithmetic {:?} for {:?}", CFGS[ci].name, t, plain, prog);
-                    ill_additive |= prog.iter().any(|t| matches!(t, QTok::Add | QTok::Sub | QTok::AddAssign | QTok::SubAssign | QTok::Lt));
+                    ill_additive |= prog.iter().any(|t| matches!(t, QTok::Add | QTok::Sub | QTok::AddAssign | QTok::SubAssign | QTok::Lt | QTok::Le | QTok::Gt | QTok::Ge));
                 }
             }
         }
@@ -428,7 +442,7 @@ fn build_quantity(raw: &[(u8, f32, i64, i8, i8)]) -> Vec<QTok> {
                     let twin = f32::from_bits(pv.to_bits().wrapping_add((n.unsigned_abs() % 3) as u32));
                     let twin = if twin.is_finite() { twin } else { pv };
                     prog.push(QTok::PushQ(twin, pm, ps));
-                    prog.push(if n % 2 == 0 { QTok::Eq } else { QTok::Lt });
+                    prog.push([QTok::Eq, QTok::Lt, QTok::Le, QTok::Gt, QTok::Ge, QTok::Ne][((n.unsigned_abs() / 3) % 6) as usize]);
                     let l = st.len();
                     st[l - 1].fresh = false;
                     continue;
@@ -521,9 +535,9 @@ fn build_quantity(raw: &[(u8, f32, i64, i8, i8)]) -> Vec<QTok> {
                 }
                 let (b, a) = (st[st.len() - 1], st[st.len() - 2]);
                 let (ua, ub) = (unit_of(&a), unit_of(&b));
-                let ops = [QTok::Add, QTok::Sub, QTok::Mul, QTok::Div, QTok::AddAssign, QTok::SubAssign, QTok::MulAssign, QTok::DivAssign, QTok::Lt, QTok::Eq];
+                let ops = [QTok::Add, QTok::Sub, QTok::Mul, QTok::Div, QTok::AddAssign, QTok::SubAssign, QTok::MulAssign, QTok::DivAssign, QTok::Lt, QTok::Eq, QTok::Le, QTok::Gt, QTok::Ge, QTok::Ne];
                 let mut op = ops[(v.to_bits() as usize ^ n as usize ^ c as usize) % ops.len()];
-                if matches!(op, QTok::Lt | QTok::Eq) {
+                if matches!(op, QTok::Lt | QTok::Eq | QTok::Le | QTok::Gt | QTok::Ge | QTok::Ne) {
                     if a.ty == b.ty && ua == ub {
                         prog.push(op);
                         st.pop();
